@@ -90,6 +90,15 @@ class World:
         self.root = pathlib.Path(tempfile.mkdtemp(prefix='vmon16-'))
         (self.root / 'sub').mkdir()
         self.files = [self.root / 'a.py', self.root / 'b.py', self.root / 'sub' / 'a.py']
+        # a second spelling of files[2] that goes through a symlinked directory and '..': root/lnk -> root/sub/deep, so
+        # root/lnk/../a.py is root/sub/a.py - while a purely lexical normalisation would call it root/a.py (= files[0])
+        (self.root / 'sub' / 'deep').mkdir()
+        try:
+            os.symlink(self.root / 'sub' / 'deep', self.root / 'lnk')
+            self.alias = self.root / 'lnk' / '..' / 'a.py'
+        except OSError:
+            self.alias = None
+        self.fio = {}
         self.cds = [self.root / 'c1', self.root / 'c2']
         self.vers = ['3.7', '3.10', '3.13']
         self.cur = {}
@@ -141,7 +150,7 @@ class World:
 
 
 OPS = ['write', 'write', 'parse', 'parse', 'parse', 'parse_diff', 'parse_nocache', 'newproc', 'rmcache', 'touch', 'idle',
-       'parse_code', 'fill', 'inflight', 'inflight']
+       'parse_code', 'fill', 'inflight', 'inflight', 'parse_fio', 'parse_fio']
 
 
 def run_history(ctx, rng, ops=None, inject=None, timelines=None, initial=None):
@@ -170,11 +179,13 @@ def run_history(ctx, rng, ops=None, inject=None, timelines=None, initial=None):
         for step in range(n):
             if ops is None:
                 op = rng.choice(OPS)
-                fi, v, ci = rng.randrange(3), rng.choice(w.vers), rng.randrange(2)
+                fi, v, ci = rng.choice([0, 1, 2, 2, 3]), rng.choice(w.vers), rng.randrange(2)
                 new = w.content() if op in ('write', 'inflight') else None
             else:
                 op, fi, v, ci, new = ops[step]
-            f, cd = w.files[fi], w.cds[ci]
+            f, cd = w.files[2 if fi == 3 else fi], w.cds[ci]
+            # the path the parse calls use: for file 2 sometimes its spelling through the symlinked directory
+            fp = w.alias if (fi == 3 and w.alias is not None and op.startswith('parse')) else f
             g = parso.load_grammar(version=v)
             log.append([op, fi, v, ci, new])
             wit = {'ops': list(log), 'timelines': list(w.timelines), 'initial': list(initial)}
@@ -228,13 +239,19 @@ def run_history(ctx, rng, ops=None, inject=None, timelines=None, initial=None):
                                 return
                     continue
                 if op == 'parse':
-                    m = g.parse(path=f, cache=True, cache_path=cd)
+                    m = g.parse(path=fp, cache=True, cache_path=cd)
                 elif op == 'parse_diff':
-                    m = g.parse(path=f, cache=True, diff_cache=True, cache_path=cd)
+                    m = g.parse(path=fp, cache=True, diff_cache=True, cache_path=cd)
                 elif op == 'parse_nocache':
-                    m = g.parse(path=f)
+                    m = g.parse(path=fp)
                 elif op == 'parse_code':
-                    m = g.parse(w.cur[f], path=f, cache=True, cache_path=cd)
+                    m = g.parse(w.cur[f], path=fp, cache=True, cache_path=cd)
+                elif op == 'parse_fio':
+                    # the public file_io= argument with a FileIO object the caller keeps for the whole history
+                    if fp not in w.fio:
+                        w.fio[fp] = FileIO(fp)
+                    m = g.parse(file_io=w.fio[fp], cache=True, cache_path=cd, diff_cache=(len(log) % 3 == 0))
+                    ctx.count('parses_through_a_kept_FileIO_object')
                 elif op == 'inflight':
                     old = w.cur[f]
                     if inject is None:
@@ -267,6 +284,8 @@ def run_history(ctx, rng, ops=None, inject=None, timelines=None, initial=None):
             w.stamp_cache()
             ctx.count('evaluations')
             ctx.count('op:' + op)
+            if fp is not f:
+                ctx.count('parses_through_the_symlinked_spelling')
             if _state['hit'] and f in wrote:
                 hit_after_write = True
             ref = g.parse(w.cur[f])
@@ -377,4 +396,5 @@ def shards(tier, seed):
 
 def floors(tier):
     return {'evaluations': 5000, 'cache_hits': 1000, 'histories_with_hit_after_write': 300, 'inflight_writes': 300, 'line_injections': 20,
-            'histories_parsing_a_file_on_the_epoch_timeline': 100, 'histories_parsing_a_file_on_the_future_timeline': 100}
+            'histories_parsing_a_file_on_the_epoch_timeline': 100, 'histories_parsing_a_file_on_the_future_timeline': 100,
+            'parses_through_a_kept_FileIO_object': 1000, 'parses_through_the_symlinked_spelling': 1000}
